@@ -112,10 +112,10 @@ class ExecGen:
                 required = a["type"]["k"] == "nn" and not a["hasDefault"]
                 if required or self.r.chance(1, 4):
                     out.append(G.arg(a["name"], self.lit(a["type"])))
-            self.arg_cache[key] = (json.dumps([a["name"] for a in arg_defs]), out)
+            self.arg_cache[key] = (json.dumps([[a["name"], a["type"]] for a in arg_defs], sort_keys=True), out)
         names, out = self.arg_cache[key]
-        if names != json.dumps([a["name"] for a in arg_defs]):
-            return None          # same field name with another argument list elsewhere: caller must alias + build fresh
+        if names != json.dumps([[a["name"], a["type"]] for a in arg_defs], sort_keys=True):
+            return None          # same field name with another argument list (names or types) elsewhere: caller must alias + build fresh
         return copy.deepcopy(out)
 
     def cond_dirs(self, allow_vars):
